@@ -36,6 +36,8 @@ type Prop struct {
 	Require func(tier string) map[string]int64
 	// Parent, when set, replaces the standard fan-out (C16, C17).
 	Parent func(p *Prop, pc *ParentCtx) *Aggregate
+	// NoNoise disables the API-noise bursts between cases.
+	NoNoise bool
 	// Finish, when set, runs in each shard after Generate (e.g. to flush per-shard coverage bitmaps).
 	Finish func(c *Ctx)
 }
@@ -83,6 +85,8 @@ type Ctx struct {
 	maxViol   int
 	cur       any
 	paranoid  string
+	noiseRng  *gen.Rng
+	noiseN    int64
 	// Scratch is available to a property for per-shard state (pools etc.).
 	Scratch map[string]any
 }
@@ -95,6 +99,7 @@ func NewCtx(p *Prop, tier string, seed uint64, shard int) *Ctx {
 		distinct:  map[uint64]struct{}{},
 		maxSample: 2, maxViol: 10,
 		paranoid: os.Getenv("VMON_PARANOID"),
+		noiseRng: gen.New(seed, fmt.Sprintf("%s/noise%d", p.ID, shard)),
 		Scratch:  map[string]any{},
 	}
 }
@@ -164,6 +169,17 @@ func (c *Ctx) exec(cs any) {
 			c.Fail("unexpected panic: "+fmt.Sprint(r), "unexpected-panic", map[string]any{"stack": string(debug.Stack())})
 		}
 	}()
+
+	// API noise between cases: unrelated calls on throw-away objects (see Noise). Always before the first few cases of
+	// a shard, then before one case in eight.
+	if !c.Prop.NoNoise && (c.noiseN < 4 || c.noiseRng.Intn(8) == 0) {
+		c.noiseN++
+		c.Res.Counters["api-noise-bursts"]++
+
+		if pan, pv := Call(func() { Noise(c.noiseRng) }); pan {
+			c.Fail(fmt.Sprintf("an unrelated API call made between cases panicked: %v", pv), "noise-panic", nil)
+		}
+	}
 
 	c.Prop.Run(c, cs)
 }
